@@ -296,8 +296,12 @@ def run_pde(c, rec):
     with scripted_noise_ctx(list(e) + [0.0] * 4):
         refused, tp = refuses(lambda: getattr(cuqi.testproblem, which)(**kw))
     if refused:
-        # e.g. spline interpolation in time needs >= 4 time levels: refusal is not a wrong result
-        rec.count("construction_refused:" + type(tp).__name__)
+        # the only refusal that is not a defect: scipy's spline interpolation (observation off the solution grid) needs more
+        # nodes / time levels than a very small problem has
+        msg = f"{type(tp).__name__}: {tp}"
+        require("regrid_smth" in msg or "fpchec" in msg or "must be greater than" in msg or "m >" in msg,
+                f"constructing {which} with documented options failed: {msg[:200]}")
+        rec.count("construction_refused_spline_too_few_points")
         return
     model = tp.model
     check_components(tp, rec, which)
